@@ -662,6 +662,11 @@ def compare_random(ck, monitor, regime, entry, kw, hist, real, ref, was_stopped)
     return True
 
 
+def _restored(sched, state):
+    sched.load_state_dict(state)
+    return sched
+
+
 def random_sop(ck, rng, n_seq):
     monitor, entry = "random.StopOnPlateau", "optim.scheduler.StopOnPlateau.step"
     for s in range(n_seq):
@@ -688,7 +693,24 @@ def random_sop(ck, rng, n_seq):
             ck.mark("random.StopOnPlateau/verbose")
         ref = RefPlateau(**kw)
         hist, was_stopped, good = [], False, True
+        # object lifecycle: at one point of a third of the sequences the scheduler is checkpointed (state_dict) into a new scheduler on a
+        # new optimizer object; the sequence continues on the new one, and the old one - stepped on its own afterwards - has no say in it
+        ckpt_at = int(rng.integers(1, length - 1)) if rng.random() < 0.35 else None
         for i in range(length):
+            if ckpt_at is not None and i == ckpt_at:
+                old_real, old_opt = real, opt
+                opt = stub(mk(prev), mk(prev), 0)
+                ok2, real2 = ck.call(monitor, form, "optim.scheduler.StopOnPlateau.load_state_dict",
+                                     lambda: _restored(pp.optim.scheduler.StopOnPlateau(opt, verbose=verbose, **kw), old_real.state_dict()))
+                if not ok2:
+                    break
+                real = real2
+                # the old scheduler goes its own way: driven to a stop (or, if already stopped, left alone)
+                for _ in range(steps + 1):
+                    old_opt.last, old_opt.loss = mk(prev), mk(prev)
+                    old_real.step(old_opt.loss)
+                kw = dict(kw, restored_from_state_dict_at=i)
+                ck.mark("random.StopOnPlateau/restored-from-state_dict" + ("/while-running" if ref.cont else "/after-stop"))
             c = int(rng.integers(0, 4))
             # decrease measured in multiples of 2^-k: exact in float32 and float64 for these magnitudes
             if c == 0:
@@ -1095,7 +1117,7 @@ def _run(ck):
     drive_icp(ck, ck.rng("drive-icp"), nd)
     if ck.shard == 0:
         drive_defaults(ck, ck.rng("drive-defaults"))
-    ck.require("driver.defaults/MPC", "driver.defaults/ICP")
+    ck.require("driver.defaults/MPC", "driver.defaults/ICP", "random.StopOnPlateau/restored-from-state_dict/while-running")
 
     # ---- 1+2: prefix trees (work items = controller x configuration, split over the shards)
     # ReduceToBason items cost several StopOnPlateau items: deal them from opposite ends of the shard list.
